@@ -2,7 +2,7 @@
    option, list, prod, unit, sumbool map to OCaml's own; nat, positive, N, Z,
    ascii, string stay the extracted inductive types.  No Extract Constant. *)
 From Coq Require Import Extraction ExtrOcamlBasic NArith ZArith List.
-From AHK Require Import Lib.Res Lib.ByteStr Model.Request Model.RequestSession.
+From AHK Require Import Lib.Res Lib.ByteStr Model.Request Model.RequestSession Model.RequestArgs.
 (* Coq's String/List/Nat modules would become String.ml/... and shadow OCaml's
    stdlib modules used by ocaml/drv.ml: have them renamed (String0.ml ...) *)
 Extraction Blacklist String List Nat Char Bytes.
@@ -10,4 +10,5 @@ Separate Extraction Z.of_N Z.to_N N.of_nat N.to_nat
   render render_req conn_get conn_put conn_post parse_req
   jprint dump_bytes scan read_url parse_read_url
   api_get_characteristics api_put_characteristics api_update_subscriptions
-  step conn_init seal_id spec.
+  step conn_init seal_id spec
+  pairing_get_characteristics pairing_put_characteristics pairing_update_subscriptions.
